@@ -36,7 +36,7 @@ REAL = ["localcider.backend.seqfileparser.SequenceFileParser (parseSeqFile, __va
 STUBBED = ["the raw device under seqfileparser.open (SimFS.SimRaw): chunking, EIO, open errors, torn files"]
 ASSUMPTIONS = ["non-space whitespace strictly inside a sequence line (TAB, NBSP, U+3000) counts as a foreign character; not generated because the statement is silent: non-space whitespace at the ends of a line, characters some splitters treat as line boundaries (VT, FF, FS-US, NEL, U+2028/9), BOMs, lone CR, non-ASCII digits, "
                "files reducing to an empty sequence, a first header appearing after sequence lines (the reference refuses to judge these: DISCARDED)",
-               "lower-case letters count as foreign characters (they are today)",
+               "lower-case forms of the 20 residue letters are not judged (DISCARDED); other lower-case letters count as foreign characters",
                "open handles after a call are counted as a probe, not a verdict (the statement does not mention handles)"]
 PROBES = ["file_name_with_glob_characters", "parser_instance_reused", "second_object_from_same_file_after_mutator", "later_file_in_same_process", "same_file_read_again", "path_rewritten_with_new_content", "file_larger_than_io_buffer", "torn_file", "torn_inside_header", "crlf", "short_reads_1_byte", "chunk_splits_crlf", "eio_fired_before_eof", "eio_scheduled_past_eof",
           "open_error", "corrupt_second_header", "corrupt_second_star", "corrupt_nonfinal_star", "corrupt_foreign_char",
@@ -392,6 +392,8 @@ def ref_parse(data):
                 continue
             elif ch.isdigit():
                 return ("ambig", "non-ASCII digit")
+            elif ch.upper() in AA and len(ch.upper()) == 1:
+                return ("ambig", "lower-case residue letter (a parser may read soft-masked residues; the statement does not say)")
             else:
                 return ("reject", "foreign character %r" % ch)
     s = "".join(kept)
